@@ -38,6 +38,10 @@ for _i in range(30 if TIER == 'quick' else 100):
     TREES.append((_k,) + (tg.twin_tree(_r, _k) if _i % 3 == 2 else tg.random_tree(_r, _k)))
 TREES.append(('html', tg.doc('plain_hp'), None))
 TREES.append(('html', tg.doc('multiroot_hp'), None))
+# parsed <iframe> content (html.parser keeps it as elements): user selectors and closest() cross the frame boundary
+FRAMED = bs4.BeautifulSoup('<div id="o" class="k a"><iframe id="f"><html><body><p id="ip" class="k"><b id="ib" class="a">x</b>'
+                                        '</p></body></html></iframe></div>', 'html.parser')
+TREES.append(('html', FRAMED, None))
 NT = len(TREES)
 
 
@@ -61,6 +65,8 @@ def views_ok(si: int) -> bool:
         ok = True
         for kind, top, root in TREES:
             html = kind != 'xml'
+            if top is FRAMED and ':root' in TEXTS[si]:
+                continue        # the root of a framed document is a root as well (pinned by the repository's tests)
             targets = [top] + rm.descendants(top)
             for t in targets[:7]:
                 exp = rm.ref_select(lst, t, html=html, custom=CUSTOM_AST)
